@@ -1,6 +1,7 @@
 """Code transform that instruments probed functions."""
 
 import ast
+import builtins
 import inspect
 import re
 import sys
@@ -152,6 +153,8 @@ class ExternalVariableCollector(NodeVisitor):
         self.vardoc = {}
         self.provenance = {v: "closure" for v in closure_vars}
         self.funcnames = set()
+        self.read_outside_annotations = set()
+        self._in_annotation = False
         self.root = tree
         self.visit(tree)
 
@@ -209,9 +212,19 @@ class ExternalVariableCollector(NodeVisitor):
     visit_DictComp = _visit_comprehension
     visit_GeneratorExp = _visit_comprehension
 
+    def visit_AnnAssign(self, node):
+        self.visit(node.target)
+        if node.value is not None:
+            self.visit(node.value)
+        self._in_annotation = True
+        self.visit(node.annotation)
+        self._in_annotation = False
+
     def visit_Name(self, node):
         if isinstance(node.ctx, ast.Load):
             self.used.add(node.id)
+            if not self._in_annotation:
+                self.read_outside_annotations.add(node.id)
         else:
             if node.lineno in self.comments:
                 self.vardoc[node.id] = self.comments[node.lineno]
@@ -354,6 +367,13 @@ class PteraTransformer(NodeTransformer):
         self.assigned = evc.assigned
         self.free = evc.free
         self.external = evc.used - evc.assigned - evc.free
+        # Python never evaluates the annotation of a local variable: a name
+        # that only occurs there and does not exist is not read at all
+        self.external -= {
+            name
+            for name in self.external - evc.read_outside_annotations
+            if name not in glb and not hasattr(builtins, name)
+        }
         self.provenance = evc.provenance
         for ext in self.external:
             self.provenance[ext] = "external"
